@@ -85,7 +85,7 @@ MCAddMerge == /\ L
 MCAddLink ==
   /\ L
   /\ \/ \E i \in Pick(Sh), k \in Pick(DOMAIN CellPool), u \in Pick(ExtUrls) :
-          \E tp \in Pick(Tips) : AddLink(i, CellPool[k], u, FALSE, tp)
+          \E tp \in Pick(IF u = "http://b.example/" THEN Tips ELSE {""}) : AddLink(i, CellPool[k], u, FALSE, tp)
                /\ LogB([a |-> "AddLink", s |-> i, cell |-> CellPool[k], url |-> u, loc |-> FALSE, tip |-> tp])
      \/ \E i \in Pick(Sh), k \in Pick(DOMAIN CellPool), u \in Pick(LocUrls) :
           AddLink(i, CellPool[k], u, TRUE, "") /\ LogB([a |-> "AddLink", s |-> i, cell |-> CellPool[k], url |-> u, loc |-> TRUE, tip |-> ""])
